@@ -145,7 +145,7 @@ class JsonArray : public detail::VariantOperators<JsonArray> {
     if (variant.template is<size_t>())
       return operator[](variant.template as<size_t>());
     else
-      return {*this, size_t(-1)};
+      return {JsonArray(), 0};  // not an index: designates nothing
   }
 
   operator JsonVariantConst() const {
